@@ -12,7 +12,8 @@ from fibertree import Fiber, Tensor, Payload
 from mc import core
 from mc.obs import content, wf, mirror, rawtree
 
-IDS = ["M", "N", "K"]
+IDS = ["M", "N", "K", "J"]
+DIMS = [2, 3, 2, 2]
 
 
 def as_t(c):
@@ -36,7 +37,26 @@ class Model:
         m = Model(self.ids, self.shape, self.points)
         m.shape_known = self.shape_known
         m.relative = set(self.relative)
+        m.styles = dict(getattr(self, "styles", {}))
         return m
+
+
+def nest_pair(g):
+    """(a, b, c, d) -> (a, (b, (c, d)))"""
+    g = tuple(g)
+    out = tuple(g[-2:])
+    for v in reversed(g[:-2]):
+        out = (v, out)
+    return out
+
+
+def cut_pair(c, l):
+    out = []
+    for _ in range(l):
+        out.append(c[0])
+        c = c[1]
+    out.append(c)
+    return tuple(out)
 
 
 def is_flat_rank(rid):
@@ -93,14 +113,18 @@ def apply_model(m, op):
         m.points = {tuple(p[i] for i in perm): v for p, v in m.points.items()}
     elif k == "flatten":
         d, l = op[1], op[2]
+        style = op[3] if len(op) > 3 else "tuple"
         grp = []
         for x in m.ids[d:d + l + 1]:
             grp.extend(x if isinstance(x, list) else [x])
         if any(isinstance(s, tuple) for s in m.shape[d:d + l + 1]):
             m.shape_known = False
+        comb = flat if style == "tuple" else nest_pair
         m.ids[d:d + l + 1] = [grp]
-        m.shape[d:d + l + 1] = [flat(m.shape[d:d + l + 1])]
-        m.points = {p[:d] + (flat(p[d:d + l + 1]),) + p[d + l + 1:]: v for p, v in m.points.items()}
+        m.shape[d:d + l + 1] = [comb(m.shape[d:d + l + 1])]
+        m.points = {p[:d] + (comb(p[d:d + l + 1]),) + p[d + l + 1:]: v for p, v in m.points.items()}
+        m.styles = dict(getattr(m, "styles", {}))
+        m.styles[d] = style
     elif k == "unflatten":
         d, l = op[1], op[2]
         rid = m.ids[d]
@@ -110,8 +134,15 @@ def apply_model(m, op):
         m.ids[d:d + 1] = new_ids
         m.shape[d:d + 1] = new_sh
 
+        pair = getattr(m, "styles", {}).get(d) == "pair"
+
         def cut(c):
+            if pair:
+                return cut_pair(c, l)
             return tuple(c[:l]) + ((c[l],) if len(c) == l + 1 else (tuple(c[l:]),))
+        if pair:
+            new_sh = list(cut_pair(sh, l))
+            m.shape[d:d + len(new_ids)] = new_sh
         m.points = {p[:d] + cut(p[d]) + p[d + 1:]: v for p, v in m.points.items()}
     return m
 
@@ -127,7 +158,7 @@ def apply_real(t, op, m_before):
     if k == "swap":
         return t.swapRanks(depth=op[1])
     if k == "flatten":
-        return t.flattenRanks(depth=op[1], levels=op[2])
+        return t.flattenRanks(depth=op[1], levels=op[2], coord_style=op[3] if len(op) > 3 else "tuple")
     if k == "unflatten":
         return t.unflattenRanks(depth=op[1], levels=op[2])
     raise ValueError(op)
@@ -154,7 +185,7 @@ def menu(n):
 
 def programs(n0):
     """All legal op pairs (and the legal triples split;swizzle;flatten-absolute is C09's own) for a tensor of n0 ranks."""
-    base = Model(IDS[:n0], [2, 3, 2][:n0], {})
+    base = Model(IDS[:n0], DIMS[:n0], {})
     out = []
     for a in menu(n0):
         if not legal(base, a) or a[0] == "unflatten":
@@ -163,6 +194,16 @@ def programs(n0):
         for b in menu(len(ma.ids)):
             if legal(ma, b):
                 out.append((a, b))
+    return out
+
+
+def programs4():
+    """4-rank tensors: multi-level flattens in tuple and pair style, alone and followed by their unflatten."""
+    out = []
+    for d, l in ((0, 2), (0, 3), (1, 2)):
+        for style in ("tuple", "pair"):
+            out.append((("flatten", d, l, style),))
+            out.append((("flatten", d, l, style), ("unflatten", d, l)))
     return out
 
 
@@ -189,11 +230,13 @@ def _norm_ids(ids):
 def case_compose(case, aspect):
     """case = (n0, points, declared, (op_a, op_b)); aspect 'C09' or 'C14'."""
     n0, pts, declared, prog = case
-    shape0 = [2, 3, 2][:n0]
+    shape0 = DIMS[:n0]
     m = Model(IDS[:n0], shape0, {tuple(p): 10 * i + 1 for i, p in enumerate(pts)})
-    feats = {"first:" + prog[0][0], "second:" + prog[1][0], "ranks:%d" % n0,
+    feats = {"first:" + prog[0][0], "second:" + (prog[1][0] if len(prog) > 1 else "-"), "ranks:%d" % n0,
              "shape:" + ("declared" if declared else "estimated")}
-    fam = "%s;%s" % (prog[0][0], prog[1][0])
+    if len(prog[0]) > 3 and prog[0][0] == "flatten":
+        feats.add("style:" + str(prog[0][3]))
+    fam = ";".join(op[0] for op in prog)
     out = []
     cur = core.CUR
     # build the real tensor from the points
@@ -223,6 +266,18 @@ def case_compose(case, aspect):
         mm = mirror(r)
         if mm:
             out.append((fam, "rank-lists:" + mm, feats, None, None))
+        # a restored tensor flattens linearly to the same content as the original (needs the right shape)
+        if prog[-1][0] == "unflatten" and declared and got == m.points and len(prog) == 2 and prog[0][0] == "flatten" \
+                and tuple(prog[1][1:3]) == tuple(prog[0][1:3]):
+            try:
+                d_, l_ = prog[0][1], prog[0][2]
+                lin_r = content(r.flattenRanks(depth=d_, levels=l_, coord_style="linear"))
+                lin_t = content(t.flattenRanks(depth=d_, levels=l_, coord_style="linear"))
+                if lin_r != lin_t:
+                    out.append((fam, "restored-tensor-flattens-differently", feats, lin_t, lin_r))
+            except Exception as ex:
+                out.append((fam, "exception:" + type(ex).__name__, feats | {"linear-reflatten", "site:" + core.exc_site(ex)},
+                            None, core.tb_tail(ex)))
         # the inverse permutation restores an equal tensor
         last = prog[-1]
         if last[0] in ("swizzle", "swap") and got == m.points:
@@ -278,7 +333,7 @@ def case_compose(case, aspect):
 
 
 def point_sets(n0, maxpts):
-    dims = [2, 3, 2][:n0]
+    dims = DIMS[:n0]
     allp = list(itertools.product(*[range(x) for x in dims]))
     for k in range(0, maxpts + 1):
         for sel in itertools.combinations(allp, k):
@@ -286,7 +341,7 @@ def point_sets(n0, maxpts):
 
 
 def cases(n0, maxpts, declared_modes=(True, False)):
-    progs = programs(n0)
+    progs = programs(n0) if n0 < 4 else programs4()
     for sel in point_sets(n0, maxpts):
         for declared in declared_modes:
             for prog in progs:
